@@ -291,6 +291,14 @@ def build_ops():
     _op("instance.reference=", ["X", "D"], _setattr("reference"), ("_reference", "_references", "_pins", "_wire"))
     _op("instance.reference=None", ["X"], lambda x: setattr(x, "reference", None), ("_reference", "_references", "_pins", "_wire"))
     _op("instance.del_reference", ["X"], _delattr("reference"), ("_reference", "_references", "_pins", "_wire"))
+    # compound constructors given a properties dictionary (an identifier, and a user key)
+    def _props(v):
+        return None if v is None else {"EDIF.identifier": v, "k": [v]}
+    _op("netlist.create_library.props", ["N", nm, nm], lambda n, name, v: n.create_library(name=name, properties=_props(v)), ("_libraries", "_netlist", "_data"))
+    _op("library.create_definition.props", ["L", nm, nm], lambda l, name, v: l.create_definition(name=name, properties=_props(v)), ("_definitions", "_library", "_data"))
+    _op("definition.create_port.props", ["D", nm, nm], lambda d, name, v: d.create_port(name=name, properties=_props(v), pins=1), ("_ports", "_definition", "_pins", "_data"))
+    _op("definition.create_cable.props", ["D", nm, nm], lambda d, name, v: d.create_cable(name=name, properties=_props(v), wires=1), ("_cables", "_definition", "_wires", "_data"))
+    _op("definition.create_child.props", ["D", nm, nm], lambda d, name, v: d.create_child(name=name, properties=_props(v)), ("_children", "_parent", "_data"))
     # element data
     keys = ("key",)
     vals = ("lit", NAMES + ("1x",))
